@@ -56,7 +56,7 @@ def main(argv=None):
     drv = None
     if not os.environ.get("VF_NO_DRIVER"):
         from . import native
-        if native.driver_path(pid):
+        if cfg.get("driver") and native.driver_path(pid):
             drv = native.run_driver(pid, vrun.REPO, tier, seed or 1)
     known = load_known()
     kf = [k for k in known.get("findings", []) if k.get("property") == pid]
